@@ -57,6 +57,10 @@ func (w *World) registerResource(op *RegOp) {
 	}
 	w.R.Resource(op.Path, ctrl, w.hs(op.MW)...)
 	if op.Again != "" {
+		if op.AgainNew && op.Kind == "" {
+			st2 := &ctrlState{w: w, tag: st.tag + "b", uses: st.uses}
+			ctrl = mk(st2, op.WithUses)
+		}
 		w.R.Resource(op.Again, ctrl, w.hs(op.MW)...)
 	}
 }
@@ -127,8 +131,9 @@ func genC16(concurrent bool) func(rng *Rng, sc *Scenario) {
 		for i, n := 0, rng.Intn(3); i < n; i++ {
 			op.MW = append(op.MW, fmt.Sprintf("m%d", i))
 		}
-		if rng.Chance(1, 5) {
+		if rng.Chance(1, 4) {
 			op.Again = "/adm/"
+			op.AgainNew = rng.Chance(1, 2)
 		}
 		if withUses {
 			op.Uses = map[string][]string{}
@@ -331,9 +336,17 @@ func c16Judge(sc *Scenario) (viol []Violation, res *RunResult, nontrivial bool) 
 		}
 		gotAct, gotID := "", ""
 		var usesRan []string
+		wantInst := "a" + strings.ToLower(ctrlTag(op)) + ":"
+		if op.AgainNew && len(resPaths) > 1 && rp == resPaths[1] {
+			wantInst = "a" + strings.ToLower(ctrlTag(op)) + "b:"
+		}
 		for _, it := range rec.Trace {
 			if it.K == "enter" && strings.HasPrefix(it.H, "a") && strings.Contains(it.H, ":") && gotAct == "" {
 				gotAct = it.H[strings.Index(it.H, ":")+1:]
+				if !strings.HasPrefix(it.H, wantInst) {
+					fail("wrong-action", "%s %s was served by the controller instance %q, but the controller registered under %s is instance %q", rec.Method, rec.Path, it.H[:strings.Index(it.H, ":")+1], rp, wantInst)
+					return
+				}
 			}
 			if it.K == "enter" && strings.HasPrefix(it.H, "u") {
 				usesRan = append(usesRan, it.H)
